@@ -151,7 +151,7 @@ def hashed_data(rep, F, rule='HASH-FIELDS'):
 def run(ctx):
     rep = ctx.rep
     rep.explanation = ('Static MIR analysis. R-PANIC on Hash::hash for BigDecimal (debug-profile facts): every may-panic site reachable from it is '
-                       'discharged or reviewed under the property\'s own bound |scale| <= 10^5.  HASH-FIELDS / HASH-ZERO / HASH-SHAPE are necessary conditions of agreement with ==: no raw representation field is hashed, every zero hashes the plain digit string, and the Hasher is fed by the same call sequence on every path (so hashers that mix each write separately cannot split equal values).  Agreement of the '
+                       'discharged or reviewed under the property\'s own bound |scale| <= 10^5.  HASH-FIELDS / HASH-ZERO / HASH-SHAPE are necessary conditions of agreement with ==: no raw representation field is hashed, every zero hashes the plain digit string, and the Hasher is fed by the same call sequence on every path (so hashers that mix each write separately cannot split equal values).  ZIP-LENGTH: on the equality side, every element-wise zip comparison of digit sequences is dominated by a test that their lengths are equal (an == that accepts a proper prefix makes unequal values equal while their hashes differ).  Agreement of the '
                        'hashed bytes with equality itself is NOT decided.')
     F = ctx.facts('default', 'dbg')
     ents = common.hash_entries(F)
@@ -169,5 +169,8 @@ def run(ctx):
     _Fl = ctx.facts('default', 'rel')
     nlm = limbmod.check(rep, _Fl, [f.name for f in _Fl.real_fns()])
     rep.floor('functions reading big-integer limbs', nlm, 1)
+    # the equality relation itself must not be coarser than value equality (two unequal values comparing equal hash differently)
+    from rules import ziplen
+    ziplen.check(rep, _Fl, _Fl.reach(common.cmp_entries(_Fl)))
     rep.assume('|scale| <= 10^5 (the property bounds scales because the hash materialises zeros)')
     rep.trust(common.TRUST_STD)
